@@ -59,8 +59,18 @@ func sameDump(a, b *ecs.EntityDump) string {
 	return ""
 }
 
-// dumpLoadContinuation is the part of a C17 case after the generated pre-history.
+// dumpLoadContinuation is the part of a C17 case after the generated pre-history. A panic of
+// any call in it (e.g. Alive of an old handle on a badly loaded world) is a violation.
 func dumpLoadContinuation(sim *core.Sim, p *c17Params, cs *core.Case) {
+	if pn := core.Call(func() { dumpLoadContinuationBody(sim, p, cs) }); pn != nil {
+		if sim.Failed {
+			panic(pn) // the failure report of the test framework, on its way up
+		}
+		c17Fail(sim, "a call on the source or the loaded world panicked: %v", pn)
+	}
+}
+
+func dumpLoadContinuationBody(sim *core.Sim, p *c17Params, cs *core.Case) {
 	A := sim.B.W
 	dump := A.DumpEntities()
 	// 1. loading into a world that has (or had, without reset) entities is refused
